@@ -15,7 +15,7 @@ checks = {
  "C10": ("model_checking","ParserLoop.tla (ReadFile's top-level loop as a state machine; NoLeak, AttachExactlyOnce, NoSilentDrop, Terminates model-checked for every item sequence up to length 4/5) exports its verdict per sequence, replayed on the real ReadFile; plus every lexeme string up to length 3, every [flags] expression up to 4 lexemes, every token-prefix of valid schemas (append test) and every reader failure offset","7 C10","parser"),
  "C11": ("model_checking","BebopSchema.tla gives tokens and meaning (FileOf) of TLC-enumerated ASTs (definition sequences, field-variant sequences, all type expressions); the real ReadFile must return FileOf(ast) under 5 layouts; judged by Trace_Parse.tla","7 C11","parser"),
  "C12": ("model_checking","TLC enumerates the program universe (shape x context x option set, plus records with two container fields); every accepted package is compiled alone by the Go compiler; TLC judges the generate events","7 C12","wire"),
- "C13": ("model_checking","Gen_Inject.tla: a reference validator (Violated) over the AST; TLC checks the base is well-formed and each of 60+ injections violates exactly its rule, and gives the verdict for EVERY struct graph on 1-3 nodes x 5 edge kinds; the real ReadFile+Generate must agree","7 C13","parser"),
+ "C13": ("model_checking","Gen_Inject.tla: a reference validator (Violated) over the AST; TLC checks the base is well-formed and each of 60+ injections violates exactly its rule, and gives the verdict for EVERY struct graph on 1-3 nodes x 5 edge kinds; Validate.tla model-checks the fixpoint loop as coded under every map iteration order (Exact, Sound, Terminates); the real ReadFile+Generate must agree","7 C13","parser"),
  "C16": ("model_checking","Format on every text of the C11 universe (5 layouts); output must re-parse to StripFile(FileOf(ast)); formatter defects are attributed by construct predicates over the token stream (Trace_Parse.tla)","7 C16","parser"),
  "C17": ("exploration","Format(Format(x)) = Format(x) on every text of the C11 universe (5 layouts) - a metamorphic law on the implementation over spec-enumerated inputs; verdict bookkeeping in Trace_Parse.tla","7 C17","parser"),
  "C18": ("model_checking","Imports.tla: declarative meaning (reachable files, package graph, inline order) and the worklist/DFS algorithms as coded, model-checked equal on EVERY import graph up to 3 files (4 sampled) x package assignments x directory placements x modes; graphs are materialised on disk and generated by the real code; judged by Trace_Imports.tla; ladders for termination in practice","7 C18","imports"),
@@ -33,7 +33,7 @@ m = {
            "baseline_off_cmd": "cd /repo && go test -vet=off -count=1 ./...", "source_commits": [], "add_only": True},
  "engines": [
   {"name":"wire","path":"spec/BebopWire.tla spec/WireUniverse.tla spec/AsIs.tla spec/Gen_Wire.tla spec/Gen_Evolve.tla spec/StreamAbs.tla spec/StreamCodec.tla spec/Trace_Wire.tla spec/Trace_Stream.tla harness/","serves_properties":["C01","C02","C03","C04","C05","C06","C07","C08","C09","C12"],"kind_free_text":"TLA+ reference model of the wire format and the stream decoder; TLC enumerates cases and checks design theorems; the real generator and generated code run in a sandboxed worker; TLC validates the recorded traces"},
-  {"name":"parser","path":"spec/BebopSchema.tla spec/Gen_Parse.tla spec/Gen_Inject.tla spec/ParserLoop.tla spec/Gen_Tokens.tla spec/Trace_Parse.tla spec/Trace_C10.tla harness/","serves_properties":["C10","C11","C13","C16","C17"],"kind_free_text":"abstract syntax, tokens and meaning of schema texts; ReadFile's loop as a state machine; reference validator"},
+  {"name":"parser","path":"spec/BebopSchema.tla spec/Gen_Parse.tla spec/Gen_Inject.tla spec/Validate.tla spec/Literals.tla spec/Gen_Literals.tla spec/Trace_C15.tla spec/ParserLoop.tla spec/Gen_Tokens.tla spec/Trace_Parse.tla spec/Trace_C10.tla harness/","serves_properties":["C10","C11","C13","C15","C16","C17"],"kind_free_text":"abstract syntax, tokens and meaning of schema texts; ReadFile's loop as a state machine; reference validator"},
   {"name":"imports","path":"spec/Imports.tla spec/Trace_Imports.tla","serves_properties":["C18"],"kind_free_text":"import graphs: declarative meaning and the coded worklist/DFS"},
   {"name":"iohelp","path":"spec/Gen_IoHelp.tla spec/Trace_IoHelp.tla","serves_properties":["C20"],"kind_free_text":"primitive layouts"},
  ],
